@@ -5,6 +5,8 @@ VERIF="$(cd "$(dirname "$0")/.." && pwd)"
 # newest rounds first (ORDER=old for the directory order)
 LIST=$(ls -d "$VERIF"/seeded/*/ | awk '{n=$0; sub(/\/$/,"",n); k=substr(n,length(n),1); print k, $0}' | sort -r | awk '{print $2}')
 [ "${ORDER:-}" = old ] && LIST=$(ls -d "$VERIF"/seeded/*/)
+# STEP=n OFFSET=k: every n-th change only, starting with the k-th (a sample for a quick regression)
+if [ -n "${STEP:-}" ]; then LIST=$(echo "$LIST" | awk -v n="$STEP" -v k="${OFFSET:-0}" '(NR - 1) % n == k'); fi
 for d in $LIST; do
   m=$(basename "$d")
   SKIP_TESTS=1 FAST_ONLY=1 "$VERIF/tools/eval_mutant.sh" "$d" ${m:0:3} 2>&1 | grep -E "^(CHECK|RESULT)"
